@@ -47,7 +47,23 @@ def exec_job(job):
             e["same_kind"] = False
     except Exception as ex:  # noqa
         e["exc"] = core.exc_name(ex)
-    return [e]
+    events = [e]
+    # history: one of the input objects is given another address, then the SAME objects are collapsed again
+    for k, (idx, text) in enumerate(job.get("edits") or [], start=1):
+        e2 = dict(e, i=k, exc="", out=[], notes_empty=True, same_kind=True)
+        try:
+            mine = [o for o in objs if type(o) is cls]
+            mine[idx % len(mine)].line = text
+            e2["inp"] = [lex.lex(o.line) for o in mine]
+            before = [o.line for o in objs if hasattr(o, "line")]
+            res = fn(objs)
+            e2["out"] = [lex.lex(o.line) for o in res]
+            e2["notes_empty"] = all(o.note in ("", None) for o in res)
+            e2["same_kind"] = all(type(o) is cls and o.platform == job["plat"] for o in res) and [o.line for o in objs if hasattr(o, "line")] == before
+        except Exception as ex:  # noqa
+            e2["exc"] = core.exc_name(ex)
+        events.append(e2)
+    return events
 
 
 def pfx_wild(bits, ln):
@@ -130,6 +146,11 @@ def run(tier, seed):
     lists = core.cap(lists, 1500 if tier == "quick" else 20000, random.Random(seed + 4))
     jobs = from_lists(rng, lists, tier, 1)
     jobs += random_lists(rng, 3000 if tier == "quick" else 60000, len(jobs) + 1)
+    # histories on the input objects: a line is re-assigned (to the text of another element of some job) and the call repeated
+    for j in jobs:
+        if j["texts"] and not j.get("foreign") and rng.random() < 0.2:
+            j["edits"] = [(rng.randrange(len(j["texts"])), rng.choice([t for jj in rng.sample(jobs, 5) if jj["cls"] == j["cls"] and jj["plat"] == j["plat"] for t in jj["texts"]] or j["texts"]))
+                          for _ in range(rng.randint(1, 2))]
     ev_lists = core.pmap(exec_job, jobs)
     events = [e for evs in ev_lists for e in evs]
     verdicts, vstats = core.validate("Trace_C14", events)
